@@ -1,6 +1,6 @@
 (* C18 - debug and quiet options change what is printed, never what is simulated. *)
 From HclV Require Import Base Expr Disasm DisasmProofs Machine MachineSpec MachineProofs DumpSpec DumpProofs Build TableSpec TableProofs.
-From HclV Require TraceSpec TraceProofs OutputSpec OutputProofs.
+From HclV Require TraceSpec TraceProofs OutputSpec OutputProofs ToolSpec ToolProofs.
 Open Scope string_scope.
 Open Scope N_scope.
 
@@ -165,3 +165,12 @@ Proof.
   exact OutputProofs.ungroup_fewer_lines_draft_refuted.
 Qed.
 Print Assumptions C18_table_forms_line_by_line.
+
+(* a whole run from any state the tool reaches: the same state OR the same error under any two
+   option sets with equal timeouts (the error case too); false from arbitrary states (refuted) *)
+Theorem C18_run_same_result_also_on_error :
+  ToolSpec.stmt_run_result_option_free /\ ~ ToolSpec.stmt_run_result_option_free_any_state_draft.
+Proof.
+  split; [exact ToolProofs.run_result_option_free_holds | exact ToolProofs.run_result_option_free_any_state_draft_refuted].
+Qed.
+Print Assumptions C18_run_same_result_also_on_error.
